@@ -135,7 +135,8 @@ func (s *sub) Unsubscribe(clientID string, topics ...string) error {
 	defer s.mu.Unlock()
 	c := s.pool.Get()
 	defer c.Close()
-	_, err := c.Do("hdel", subPrefix+clientID, topics)
+	// one hash field per topic filter: the topics have to be passed as separate arguments
+	_, err := c.Do("hdel", redigo.Args{}.Add(subPrefix+clientID).AddFlat(topics)...)
 	if err != nil {
 		return err
 	}
